@@ -3,7 +3,7 @@ import hashlib, importlib, json, os, re, shutil, subprocess, sys, tempfile, time
 sys.path.insert(0, os.path.dirname(__file__))
 V = os.path.dirname(os.path.dirname(os.path.abspath(__file__)))
 sys.path.insert(0, V)
-from splice import FileSplice, Stats, Unsupported
+from splice import FileSplice, Stats, Unsupported, index_file
 from rsyn import LostAnchor
 
 REPO = os.environ.get('VERIF_REPO', '/repo')
@@ -73,6 +73,7 @@ def build_scratch(out, only=None, canary=False):
             raise LostAnchor('source file missing: src/%s' % rel)
         F = FileSplice(rel, open(p).read(), stats)
         mod.apply(F)
+        stats.index = getattr(stats, 'index', []) + index_file(F, stats.records)
         text = F.s
         if canary:
             text = canary_rewrite(text)
